@@ -43,6 +43,7 @@ func Load(repo string, withSpecs bool) (*Program, error) {
 			}
 			dir := filepath.Dir(f)
 			overlay[filepath.Join(dir, "zz_gvc_spec.go")] = []byte(sf.GoSource())
+			sf.genLines() // precompute (shared read-only between units afterwards)
 			p.Specs[ModPath+"/"+filepath.Base(dir)] = sf
 		}
 	}
